@@ -157,65 +157,112 @@ func defaultContent(l *Loc) *Term {
 	return mk(base + strings.Join(l.Path, ""))
 }
 
-func (s *state) hget(l *Loc) *Term {
-	if e, ok := s.heap[l.key()]; ok {
-		return e.t
+// window parses "[a:b]" / "[i]" / "[a:]" path elements.
+func window(e string) (lo, hi int64, ok bool) {
+	var a, b int64
+	if n, _ := fmt.Sscanf(e, "[%d:%d]", &a, &b); n == 2 {
+		return a, b, true
 	}
-	// longest prefix with a state
-	var best *hent
-	for _, e := range s.heap {
-		e := e
-		if e.loc.Root == l.Root && len(e.loc.Path) < len(l.Path) && pathHasPrefix(l.Path, e.loc.Path) {
-			if best == nil || len(e.loc.Path) > len(best.loc.Path) {
-				best = &e
+	if strings.HasSuffix(e, ":]") {
+		if n, _ := fmt.Sscanf(e, "[%d:]", &a); n == 1 {
+			return a, 1 << 40, true
+		}
+	}
+	if n, _ := fmt.Sscanf(e, "[%d]", &a); n == 1 && e == fmt.Sprintf("[%d]", a) {
+		return a, a + 1, true
+	}
+	return 0, 0, false
+}
+
+func (s *state) hget(l *Loc) *Term {
+	var base *Term
+	var overlay []hent
+	if e, ok := s.heap[l.key()]; ok {
+		base = e.t
+	} else {
+		// longest prefix with a state
+		var best *hent
+		for _, e := range s.heap {
+			e := e
+			if e.loc.Root == l.Root && len(e.loc.Path) < len(l.Path) && pathHasPrefix(l.Path, e.loc.Path) {
+				if best == nil || len(e.loc.Path) > len(best.loc.Path) {
+					best = &e
+				}
+			}
+		}
+		if best != nil {
+			if best.t.Op == "zero" {
+				base = best.t
+			} else {
+				base = mk("sel", best.t, mk(strings.Join(l.Path[len(best.loc.Path):], "")))
+			}
+		}
+		// newer writes to overlapping windows next to l (same parent)
+		if n := len(l.Path); n > 0 {
+			if lo, hi, ok := window(l.Path[n-1]); ok {
+				for _, e := range s.heap {
+					if e.loc.Root != l.Root || len(e.loc.Path) != n || !pathHasPrefix(e.loc.Path, l.Path[:n-1]) || e.loc.Path[n-1] == l.Path[n-1] {
+						continue
+					}
+					if elo, ehi, ok := window(e.loc.Path[n-1]); ok && elo < hi && lo < ehi {
+						// rebase relative to l
+						rel := &Loc{Root: l.Root, Path: append(append([]string{}, l.Path...), relWindow(elo-lo, ehi-lo)), Len: -1}
+						overlay = append(overlay, hent{rel, e.t})
+					}
+				}
 			}
 		}
 	}
-	if best != nil {
-		if best.t.Op == "zero" {
-			return best.t
-		}
-		rest := strings.Join(l.Path[len(best.loc.Path):], "")
-		if best.t.Op == "&" {
-			return mk("sel", best.t, mk(rest))
-		}
-		return mk("sel", best.t, mk(rest))
-	}
-	// extensions
-	var exts []hent
+	// newer writes below l
 	for _, e := range s.heap {
 		if e.loc.Root == l.Root && len(e.loc.Path) > len(l.Path) && pathHasPrefix(e.loc.Path, l.Path) {
-			exts = append(exts, e)
+			overlay = append(overlay, e)
 		}
 	}
-	if len(exts) > 0 {
-		sort.Slice(exts, func(i, j int) bool { return exts[i].loc.key() < exts[j].loc.key() })
-		args := []*Term{}
-		def := defaultContent(l)
-		if def.Op != "zero" {
+	if len(overlay) == 0 {
+		if base != nil {
+			return base
+		}
+		return defaultContent(l)
+	}
+	sort.Slice(overlay, func(i, j int) bool { return overlay[i].loc.key() < overlay[j].loc.key() })
+	args := []*Term{}
+	op := "agg"
+	if base == nil {
+		if def := defaultContent(l); def.Op != "zero" {
 			args = append(args, def)
+			op = "upd"
 		}
-		for _, e := range exts {
-			args = append(args, mk(strings.Join(e.loc.Path[len(l.Path):], "")+"=", e.t))
-		}
-		return mk("agg", args...)
+	} else if base.Op != "zero" {
+		args = append(args, base)
+		op = "upd"
 	}
-	return defaultContent(l)
+	for _, e := range overlay {
+		args = append(args, mk(strings.Join(e.loc.Path[len(l.Path):], "")+"=", e.t))
+	}
+	return mk(op, args...)
+}
+
+func relWindow(lo, hi int64) string {
+	if hi == lo+1 {
+		return fmt.Sprintf("[%d]", lo)
+	}
+	return fmt.Sprintf("[%d:%d]", lo, hi)
 }
 
 // content renders the data a value stands for when it is consumed by an
 // uninterpreted operation: referenced memory for references.
 func (s *state) content(t *Term) *Term {
-	if t.Op != "&" && !t.IsConst() && !t.Nil {
+	if t.Op != "ref" && !t.IsConst() && !t.Nil {
 		// an object held as a data term (e.g. a hash returned by a constructor)
 		// whose state was updated by later calls
 		if e, ok := s.heap["T:"+t.String()]; ok {
 			return e.t
 		}
 	}
-	if t.Op == "&" {
+	if t.Op == "ref" {
 		c := s.hget(t.Loc)
-		if c.Op == "&" && c.Loc.key() != t.Loc.key() {
+		if c.Op == "ref" && c.Loc.key() != t.Loc.key() {
 			return s.content(c)
 		}
 		return c
@@ -315,7 +362,7 @@ func (w *walker) havocLoop(s *state, fr *frame, h *ssa.BasicBlock) {
 		if _, isG := r.(*ssa.Global); isG {
 			t, ok = w.val(s, fr, r), true
 		}
-		if !ok || t.Op != "&" {
+		if !ok || t.Op != "ref" {
 			return
 		}
 		s.hset(&Loc{Root: t.Loc.Root, Path: t.Loc.Path, Len: -1}, mk(fmt.Sprintf("havoc@L%d", loopOrdinal(h)), defaultOrLocal(t.Loc)))
@@ -475,7 +522,7 @@ func (w *walker) enter(s *state, fr *frame, b *ssa.BasicBlock) bool {
 			}
 			if !back {
 				sym := mk(fmt.Sprintf("φL%d.%d", loopOrdinal(b), k))
-				if v.Op == "&" {
+				if v.Op == "ref" {
 					sym = v // references stay references (loop-invariant pointers)
 				} else {
 					s.events = append(s.events, fmt.Sprintf("loop L%d: %s starts as %s", loopOrdinal(b), sym, v))
@@ -563,7 +610,7 @@ func not(t *Term) *Term {
 }
 
 func (w *walker) renderForCompare(s *state, t *Term) *Term {
-	if t.Op == "&" {
+	if t.Op == "ref" {
 		d := defaultContent(t.Loc)
 		if d.Op == "zero" {
 			return mk("&local")
@@ -584,7 +631,7 @@ func (w *walker) binop(s *state, op token.Token, x, y *Term, typ types.Type) *Te
 	case token.EQL, token.NEQ:
 		var r *Term
 		// nil comparisons of references
-		xr, yr := x.Op == "&", y.Op == "&"
+		xr, yr := x.Op == "ref", y.Op == "ref"
 		switch {
 		case xr && y.Nil && x.Loc.NonNil, yr && x.Nil && y.Loc.NonNil:
 			r = constTerm(constant.MakeBool(false))
@@ -677,7 +724,7 @@ func foldBin(op token.Token, x, y constant.Value) (r constant.Value, ok bool) {
 }
 
 func (w *walker) lenOf(s *state, t *Term) *Term {
-	if t.Op == "&" {
+	if t.Op == "ref" {
 		l := t.Loc
 		if len(l.Path) == 0 && l.Len >= 0 {
 			return constTerm(constant.MakeInt64(l.Len))
@@ -716,7 +763,7 @@ func (w *walker) sliceRef(s *state, fr *frame, x *ssa.Slice, base *Term) *Term {
 	if x.High != nil {
 		hi = w.val(s, fr, x.High)
 	}
-	if base.Op != "&" {
+	if base.Op != "ref" {
 		if base.Nil {
 			return nilTerm
 		}
@@ -789,7 +836,7 @@ func (w *walker) sliceRef(s *state, fr *frame, x *ssa.Slice, base *Term) *Term {
 }
 
 func (w *walker) deref(t *Term) *Loc {
-	if t.Op == "&" {
+	if t.Op == "ref" {
 		return t.Loc
 	}
 	return &Loc{Root: "T:" + t.String(), Len: -1}
@@ -1099,9 +1146,9 @@ func (w *walker) run(s *state) {
 			if len(s.frames) == 1 {
 				p := &Path{}
 				for _, r := range res {
-					if r.Op == "&" && isLocalRoot(r.Loc.Root) {
+					if r.Op == "ref" && isLocalRoot(r.Loc.Root) {
 						p.Outcome = append(p.Outcome, mk("&new", s.content(r)))
-					} else if r.Op == "&" {
+					} else if r.Op == "ref" {
 						p.Outcome = append(p.Outcome, w.renderForCompare(s, r))
 					} else {
 						p.Outcome = append(p.Outcome, r)
@@ -1212,7 +1259,7 @@ func (w *walker) builtin(s *state, fr *frame, name string, args []*Term, x *ssa.
 		}
 		return w.lenOf(s, args[0])
 	case "copy":
-		if args[0].Op == "&" {
+		if args[0].Op == "ref" {
 			src := s.content(args[1])
 			s.hset(args[0].Loc, src)
 		}
@@ -1240,13 +1287,13 @@ func (w *walker) builtin(s *state, fr *frame, name string, args []*Term, x *ssa.
 			}
 		}
 		s.nextID++
-		l := &Loc{Root: fmt.Sprintf("M%d", s.nextID), Len: -1, NonNil: args[0].Op == "&" && args[0].Loc.NonNil || len(parts) > 0}
+		l := &Loc{Root: fmt.Sprintf("M%d", s.nextID), Len: -1, NonNil: args[0].Op == "ref" && args[0].Loc.NonNil || len(parts) > 0}
 		s.hset(l, mk("cat", parts...))
 		return refTerm(l)
 	case "ssa:wrapnilchk":
 		return args[0]
 	case "delete":
-		if args[0].Op == "&" {
+		if args[0].Op == "ref" {
 			s.hset(args[0].Loc, mk("mapdelete", s.hget(args[0].Loc), s.content(args[1])))
 		}
 		return mk("unit")
@@ -1296,7 +1343,7 @@ func (w *walker) uninterpreted(s *state, fr *frame, instr ssa.CallInstruction, a
 		fv := w.val(s, fr, common.Value)
 		name = "dyn:" + fv.String()
 		for i, a := range all {
-			if a.Op == "&" {
+			if a.Op == "ref" {
 				writes = append(writes, i)
 			}
 		}
@@ -1314,7 +1361,7 @@ func (w *walker) uninterpreted(s *state, fr *frame, instr ssa.CallInstruction, a
 		if written && i == 0 && (c.Op == "zero" || !readsRecv) {
 			continue // pure destination: fresh object, or a callee that never reads its receiver
 		}
-		if written && i == 0 && a.Op == "&" && len(c.Args) == 0 && c.String() == defaultContent(a.Loc).String() {
+		if written && i == 0 && a.Op == "ref" && len(c.Args) == 0 && c.String() == defaultContent(a.Loc).String() {
 			continue // destination whose previous content is just the initial, never-written memory of a parameter
 		}
 		cargs = append(cargs, c)
@@ -1323,7 +1370,7 @@ func (w *walker) uninterpreted(s *state, fr *frame, instr ssa.CallInstruction, a
 	ct := mk(name, cargs...)
 	if strings.HasSuffix(name, ".Sum") && len(all) == 2 {
 		ct = mk("Sum", s.content(all[0]))
-		if all[1].Op == "&" {
+		if all[1].Op == "ref" {
 			l := all[1].Loc
 			if n := len(l.Path); n > 0 && (strings.HasPrefix(l.Path[n-1], "[0:0]") || l.Path[n-1] == "[:0]") {
 				parent := &Loc{Root: l.Root, Path: l.Path[:n-1], Len: -1, NonNil: l.NonNil}
@@ -1357,8 +1404,8 @@ func (w *walker) uninterpreted(s *state, fr *frame, instr ssa.CallInstruction, a
 		s.seenCall[ct.String()] = instr.(ssa.Instruction)
 	}
 	for _, wi := range writes {
-		if wi >= len(all) || all[wi].Op != "&" {
-			if wi < len(all) && all[wi].Op != "&" && !all[wi].Nil {
+		if wi >= len(all) || all[wi].Op != "ref" {
+			if wi < len(all) && all[wi].Op != "ref" && !all[wi].Nil {
 				// written through a pointer held as a data term (e.g. a hash object returned by a constructor)
 				l := w.deref(all[wi])
 				if wi == 0 {
@@ -1383,7 +1430,7 @@ func (w *walker) uninterpreted(s *state, fr *frame, instr ssa.CallInstruction, a
 		if types.Identical(t, types.Universe.Lookup("error").Type()) {
 			return mk("err", ct)
 		}
-		if returnsAlias >= 0 && returnsAlias < len(all) && all[returnsAlias].Op == "&" {
+		if returnsAlias >= 0 && returnsAlias < len(all) && all[returnsAlias].Op == "ref" {
 			switch t.Underlying().(type) {
 			case *types.Pointer, *types.Slice:
 				return all[returnsAlias]
